@@ -50,6 +50,9 @@ class Func:
         return f'<Func {self.qualname}>'
 
 
+NORMALISE = os.environ.get('DDVERIF_NO_NORMALISE') is None
+
+
 class Unit:
     def __init__(self, repo, rel, modname, kind):
         self.repo = repo
@@ -85,6 +88,14 @@ class Unit:
             self.tree = lw.module
             self.c_protos = lw.c_protos
             self.unknown_nodes = sum(lw.unknown.values())
+        self.normalised = dict()
+        if self.tree is not None and kind == 'py' and NORMALISE:
+            from . import normalise
+            try:
+                self.normalised = normalise.normalise_module(
+                    self.tree, modname, normalise.load_inventory())
+            except RecursionError:
+                raise AnalysisError(f'cannot normalise {rel}')
         if self.tree is not None:
             au.set_parents(self.tree)
             self._index(self.tree, modname, None)
